@@ -1,7 +1,7 @@
 (* Props_C10.v — property theorems for C10 (only statements closed by [exact]). *)
 From Coq Require Import List String Bool Arith.
 Import ListNotations.
-From HolpyV Require Import Kernel TermOrd ConvModel ConvSound.
+From HolpyV Require Import Kernel TermOrd ConvModel ConvSound Nnf NnfSound.
 
 (* ConvOK H c: whenever the conversion c returns a sequent for a term t, it is an
    equation whose left side is t (up to bound names) and whose hypotheses come
@@ -59,3 +59,29 @@ Example C10_example :
   let conj x y := Comb (Comb (Const "conj" bool2) x) y in
   norm_op "conj" (Const "true" BoolT) (conj (conj B A) (conj A B)) = conj A B.
 Proof. vm_compute. reflexivity. Qed.
+
+(* nnf_conv (data/proplogic.py) on the propositional skeleton of a term (atoms: whatever the
+   conversion leaves alone): the result has the same truth value under every valuation of the
+   atoms, is in negation normal form (a negation stands in front of an atom only), and a normal
+   form is left unchanged -- so normalising twice gives what normalising once gives.  The model
+   is compared with nnf_conv on generated formulas by the harness (case_nnf). *)
+Theorem C10_nnf_meaning : forall v f, feval v (nnf f) = feval v f.
+Proof. exact nnf_sem. Qed.
+Print Assumptions C10_nnf_meaning.
+
+Theorem C10_nnf_normal : forall f, is_nnf (nnf f) = true.
+Proof. exact nnf_normal. Qed.
+Print Assumptions C10_nnf_normal.
+
+Theorem C10_nnf_fixed : forall f, is_nnf f = true -> nnf f = f.
+Proof. exact nnf_fixed. Qed.
+Print Assumptions C10_nnf_fixed.
+
+Theorem C10_nnf_idempotent : forall f, nnf (nnf f) = nnf f.
+Proof. exact nnf_idempotent. Qed.
+Print Assumptions C10_nnf_idempotent.
+
+Example C10_nnf_example :
+  let A := FAtom (Var "A" BoolT) in let B := FAtom (Var "B" BoolT) in
+  nnf (FNot (FIff A (FNot (FNot B)))) = FIff (FNot A) B /\ is_nnf (FNot (FNot A)) = false.
+Proof. vm_compute. split; reflexivity. Qed.
